@@ -9,15 +9,23 @@ use std::sync::{Arc, OnceLock};
 
 pub mod blocks;
 pub mod c01;
+pub mod c02;
+pub mod c03;
+pub mod c05;
+pub mod general;
+pub mod sweep;
 
 pub const FINE: Granularity = Granularity::Fine;
 pub const COARSE: Granularity = Granularity::Coarse;
 
-pub const PROPS: &[&str] = &["C01"];
+pub const PROPS: &[&str] = &["C01", "C02", "C03", "C05"];
 
 pub fn jobs(prop: &str, tier: Tier) -> Vec<Job> {
     match prop {
         "C01" => c01::jobs(tier),
+        "C02" => c02::jobs(tier),
+        "C03" => c03::jobs(tier),
+        "C05" => c05::jobs(tier),
         _ => vec![],
     }
 }
@@ -69,5 +77,31 @@ pub fn pipeline_job(
         describe: json!({"case": case.describe(), "run": run.label()}),
         hang_is_violation: true,
         must_be_nontrivial: false,
+        show: Some({
+            let case = case.clone();
+            let fault = run.fault.clone();
+            Arc::new(move || {
+                let exp = reference(&case, fault.clone());
+                let mut s = format!("error: {:?}\n", exp.obs.error);
+                for (i, o) in exp.obs.outcomes.iter().enumerate() {
+                    let d = format!("{o:?}");
+                    s += &format!("  tx{i} {}: {}\n", case.tx_labels[i], &d[..d.len().min(300)]);
+                }
+                let mut accts: Vec<_> = exp.obs.bundle.state.iter().collect();
+                accts.sort_by_key(|(a, _)| **a);
+                for (a, acc) in accts {
+                    let st: std::collections::BTreeMap<_, _> = acc.storage.iter().map(|(k, v)| (*k, v.present_value)).collect();
+                    s += &format!(
+                        "  acct {} status={:?} nonce={:?} bal={:?} storage={:?}\n",
+                        crate::world::short(a),
+                        acc.status,
+                        acc.info.as_ref().map(|i| i.nonce),
+                        acc.info.as_ref().map(|i| i.balance),
+                        st
+                    );
+                }
+                s
+            })
+        }),
     }
 }
